@@ -817,7 +817,7 @@ static int engine_g7(uint64_t seed, unsigned worker, uint64_t nscripts, const st
         for (uint32_t i = 0; i < N; i++) one({}, i);
         if (N <= pair_max)
             for (uint32_t i = 0; i < N; i++) for (uint32_t j = i + 1; j < N; j++) one({i, j}, 0xffffffffu);
-        if (N <= 8)
+        if (N <= 10)
             for (uint32_t i = 0; i < N; i++) for (uint32_t j = i + 1; j < N; j++)
                 for (uint32_t l = j + 1; l < N; l++) one({i, j, l}, 0xffffffffu);
     }
